@@ -180,7 +180,7 @@ def run(ctx):
                    "ser(vk)||H4(msg)||H5(encode(list))||prefix||ser(id) for every identifier; commitment list entry = "
                    "id||hiding||binding in map order; signature = ser(R)||ser(z) (Taproot: x(R)||z); H1-H5/HDKG/HID inputs "
                    "= contextString, tag, m with the RFC tags and the three RFC exceptions for H2; the commitment list is "
-                   "an ordered map and identifier order compares the whole encoding from the most significant byte.")
+                   "an ordered map and identifier order compares the whole encoding from the most significant byte. Hashes are compared in a digest normal form (algorithm = the hasher type, ordered preimage parts) that is independent of the API spelling (one-shot digest, update/chain_update, loop or fold over the inputs, concatenated buffer).")
     ctx.undecided = ("equality of values with an independent implementation, the integer-to-scalar arithmetic of "
                      "identifiers, hash_to_field internals: the headline of C02 is a value comparison; only the "
                      "construction-order clause is claimed.")
